@@ -701,6 +701,20 @@ def campaign(ctx, pid):
                 if cls is None and pid == 'C02':
                     ctx.violation('C02: the generated tracer accessed memory outside the packet buffer / executed an undefined operation: %s' % err[1][:160], rep)
                 continue
+            # a history in which the known findings S9 / S18 struck without a memory error (alignment
+            # padding alone pushed ctx->at beyond packet_size: content size > packet size) is not
+            # judged by the other oracles; it is reported under the properties that list the finding
+            cls0 = classify_memory_error(cfg, s, h, r['events'][hi])
+            rets0 = [e for e in r['events'][hi] if e[0] == 3]
+            if cls0 is not None and any(e[1] > e[2] for e in rets0):
+                stats['histories_with_position_beyond_packet_(S9/S18)'] += 1
+                if pid in ('C02', 'C03', 'C06'):
+                    ctx.finding(cls0['kind'], 'reservation not re-validated after a packet switch: the write position went beyond packet_size '
+                                'through alignment padding (size %d bits computed at bit %d, %d bits needed at bit %d)' % (
+                                    cls0['size_computed'], cls0['at_when_sized'], cls0['size_needed'], cls0['at_when_written']),
+                                {'config_seed': r['seed'], 'history': hi, 'config': cfg_repr(cfg), 'calls': h['calls'],
+                                 'oracle': h['oracle'][:60], 'buf_bytes': h['buf'], 'classification': cls0})
+                continue
             for o in ORACLES[pid]:
                 o(ctx, r, hi, stats)
             if len(samples) < 4 and hi == 0:
